@@ -368,10 +368,10 @@ def run(ctx):
     forbidden_gate(ctx, ["Base", "C13"])
     ok, why = check_props(ctx, "C13/Props.v", ["C13/Harness.vo", "C13/Proofs.vo", "C13/ProofsSorted.vo", "C13/ProofsMerge.vo"])
     rng = ctx.rng
-    n = 520 if ctx.tier == "quick" else 5000
+    n = 420 if ctx.tier == "quick" else 5000
     cases = [gen_case(rng, ctx.tier) for _ in range(n)]
     # tagged twins (unique lid / rid per record, --ul --ur): exactly-once accounting in BOTH modes, -s on unsorted inputs included
-    nt = 60 if ctx.tier == "quick" else 600
+    nt = 50 if ctx.tier == "quick" else 600
     base = [c for c in cases if c["left"] and c["right"]][:nt]
     cases += [tagged(c, True) for c in base] + [tagged(c, False) for c in base]
     cases += fixed_cases()
